@@ -678,36 +678,14 @@ def rule_r7(repo):
                     rr.fail('Decoder.%s:%s' % (m, key), fi.where, '%s decodes to %r; it is an ordinary value [%s]' % (what, vals, r.desc()))
                     break
         rr.instance('Decoder.%s: one-bit difference rule present: %s' % (m, hit))
-    # code / flag columns: the reconstructed value min + diff is missing when it is all ones of the element width (> 1 bit)
-    m = 'process_codeflag_compressed'
-    fi, recs, _ = run_primitive(repo, 'Decoder', m)
-    seen_none = seen_val = 0
-    for r in recs:
-        if not r.ok or len(r.io()) != 3:
-            continue
-        b = r.bindings()
-        if ('io2' in b and b['io2'] is None) or (b.get('io2') == 1 and b.get('io1') == 1):
-            continue
-        dec = dict((e[1], e[2]) for e in r.events if e[0] == 'decide')
-        vals = [e[2] for e in r.events if e[0] == 'append' and e[1] == 'decoded_values@subset']
-        wide = dec.get('cmpGt(D.nbits,1)')
-        allones = None
-        for k, v in dec.items():
-            if k.startswith('cmpEq(') and 'MISSING(D.nbits)' in k and ('add(io0,io2)' in k or 'add(io0,1)' in k):
-                allones = v
-        if vals == [None]:
-            seen_none += 1
-            if not (wide and allones):
-                rr.fail('Decoder.%s:recheck-guard' % m, fi.where, 'path [%s] turns a reconstructed value into missing without establishing that the element is wider '
-                        'than one bit and that minimum + difference is all ones of the element width' % r.desc())
-        elif vals:
-            seen_val += 1
-            if wide and allones:
-                rr.fail('Decoder.%s:recheck' % m, fi.where, 'path [%s] keeps a value that is all ones of the element width' % r.desc())
-    rr.instance('Decoder.%s: all-ones re-check of minimum + difference (%d missing / %d value paths)' % (m, seen_none, seen_val))
-    if seen_none == 0:
-        rr.fail('Decoder.%s:recheck' % m, fi.where, 'a code/flag value reconstructed as minimum + difference is never compared with the all-ones pattern of '
-                'the element width: a 4-bit code table value of 15 would be returned instead of missing')
+    # code / flag columns: the reconstructed value min + diff is missing when it is all ones of the element width (> 1 bit):
+    # folded on scripted fields (how the re-check is written does not matter)
+    from sa.rules import columns
+    cr = columns.rule_columns(repo, 'quick', 'C01.R7', only=('codeflag',))
+    for f in cr.findings:
+        if f.key.startswith('column:codeflag:all-ones-recheck') or f.key.startswith('column:codeflag:decoder-widths'):
+            rr.findings.append(f)
+    rr.instance('Decoder.process_codeflag_compressed: all-ones re-check of minimum + difference (folded on scripted columns)')
     rr.require_floor(15)
     return rr
 
